@@ -47,7 +47,7 @@ var (
 
 // IsHarnessName: the name of a harness-registered function.
 func IsHarnessName(n string) bool {
-	if n == "ov" {
+	if n == "ov" || n == "lz_last" {
 		return true
 	}
 	for _, f := range StdHarness {
@@ -173,6 +173,11 @@ func MakeHarnessFun(f ref.FunSig, tr *Tracer) *val.Val {
 			tr.Add(base)
 			return force(args[1+selIndex(force(args[0]).Num().V, n)])
 		}
+	case "lz_last":
+		impl = func(args ...*val.Val) *val.Val {
+			tr.Add("lz_last")
+			return force(args[len(args)-1])
+		}
 	case "lz_one":
 		impl = func(args ...*val.Val) *val.Val {
 			tr.Add("lz_one")
@@ -296,6 +301,10 @@ func RefHarness(sigs []ref.FunSig) map[string]ref.HarnessFun {
 			return a[1+selIndex(float64(k.N), len(a)-1)]()
 		}}
 	}
+	h["lz_last"] = ref.HarnessFun{Lazy: func(ev *ref.Evaluator, ret *m.Type, a []ref.Thunk) (*m.Val, *ref.Failure) {
+		ev.Trace = append(ev.Trace, "lz_last")
+		return a[len(a)-1]()
+	}}
 	h["lz_one"] = ref.HarnessFun{Lazy: func(ev *ref.Evaluator, ret *m.Type, a []ref.Thunk) (*m.Val, *ref.Failure) {
 		ev.Trace = append(ev.Trace, "lz_one")
 		return a[0]()
